@@ -13,7 +13,7 @@ use crate::error::ContractError;
 use crate::helpers::{
     validate_emergency_unlock_penalty, validate_farm_expiration_time, validate_unlocking_duration,
 };
-use crate::state::{CONFIG, FARM_COUNTER};
+use crate::state::{CONFIG, FARM_COUNTER, MAX_FARMS_LIMIT};
 use crate::{farm, manager, position, queries};
 
 const CONTRACT_NAME: &str = "mantra:farm-manager";
@@ -34,6 +34,15 @@ pub fn instantiate(
     ensure!(
         msg.max_concurrent_farms > 0,
         ContractError::UnspecifiedConcurrentFarms
+    );
+
+    // the farms of an LP denom are listed at most MAX_FARMS_LIMIT at a time when enforcing the limit
+    // and when closing expired farms, so the limit itself can't be larger than that
+    ensure!(
+        msg.max_concurrent_farms <= MAX_FARMS_LIMIT,
+        ContractError::TooManyConcurrentFarms {
+            max: MAX_FARMS_LIMIT
+        }
     );
 
     // ensure the unlocking duration range is valid
